@@ -77,6 +77,7 @@ def run(ctx, rep):
                'the main-page length and the page count are pushed into the Poseidon header', fn.loc(), cfg)
         dynamic_tables(db, rep)
         no_lossy_casts(db, rep, fn)
+        unconditional(db, rep, fn)
     rep.note('configs', ctx.stone_configs())
 
 
@@ -158,3 +159,67 @@ def no_lossy_casts(db, rep, fn):
                         bad.append((p.split('::')[-1], f'{a}->{t}', s['line']))
     rep.ob('C13.width', 'no-narrowing-cast', not bad,
            f'{n} integer casts in the digest computation; lossy ones: {bad} (a truncated field no longer binds its high bits)', fn.loc(), db.config)
+
+
+# operations that pass every element of what they are given on to their result, in order, whatever the values are
+STRUCTURE_PRESERVING = {
+    'iter', 'into_iter', 'next', 'map', 'flat_map', 'flatten', 'chain', 'once', 'copied', 'cloned', 'enumerate', 'zip', 'fold',
+    'for_each', 'collect', 'from_iter', 'extend', 'extend_from_slice', 'push', 'len', 'clone', 'from', 'into', 'deref', 'as_slice',
+    'as_ref', 'borrow', 'to_vec', 'into_vec', 'new', 'with_capacity', 'reserve', 'new_uninit', 'box_assume_init_into_vec_unsafe',
+    'mul', 'add', 'index', 'pedersen_hash', 'poseidon_hash_many', 'write', 'into_boxed_slice', 'size_hint',
+}
+
+
+def unconditional(db, rep, fn, rule='C13.unconditional'):
+    """Every field is bound on EVERY evaluation, not only on some: between the public input and the two hash calls,
+    get_hash (with its closures and the same-crate helpers it calls) may use only operations that pass on every
+    element they are given, and may branch only on the end of an iteration and on whether dynamic parameters exist.
+    A filter, a lookup with a fallback, a truncation or a value-dependent branch would let some inputs share a digest."""
+    import exprtree
+    cfg = db.config
+    bs = common.bodies(db, fn, helpers=2)
+    inset = {b.path for b in bs}
+    bad = []
+    n_calls = n_sw = 0
+    for b in bs:
+        if not b.has_mir and ' as core::clone::Clone>::clone' in b.path:
+            continue    # derived Clone (derive bodies are not dumped): a field-by-field copy
+        if not b.has_mir or b.compact:
+            bad.append((b, 0, f'body of {b.path} is not available'))
+            continue
+        T = exprtree.Trees(db, b)
+        for bi, t in b.calls():
+            n_calls += 1
+            f = t['f']
+            local = f.get('resolved') if f.get('is_resolved') else None
+            if local in db.fns:
+                if local not in inset:
+                    bad.append((b, t['line'], f'call of {local} (not analysed: deeper than two helper levels)'))
+                continue
+            nm = f.get('name')
+            if nm not in STRUCTURE_PRESERVING:
+                bad.append((b, t['line'], f'{nm} ({(f.get("path") or "")[:60]}) is not a structure-preserving operation'))
+        for bi, bl in enumerate(b.blocks):
+            t = bl['term']
+            if t['k'] != 'switch' or bl.get('cleanup'):
+                continue
+            n_sw += 1
+            tr = T.operand(t['op'])
+            shown = exprtree.show(tr)
+            ok = isinstance(tr, tuple) and tr[0] == 'discr' and (
+                (isinstance(tr[1], tuple) and tr[1][0] == 'next') or shown in ('discr(a1.dynamic_params)',))
+            if not ok:
+                bad.append((b, t.get('line', 0), f'branch on {shown[:80]}'))
+    rep.note('unconditional_scope', {'bodies': len(bs), 'calls': n_calls, 'branches': n_sw})
+    seen = {}
+    for b, line, why in bad:
+        k = f'{b.path}|{why.split(" (")[0]}'
+        o = seen.get(k, 0)
+        seen[k] = o + 1
+        rep.ob(rule, f'{k}|{o}', False,
+               f'{why} inside the digest computation: some public inputs may then share a digest although they differ', b.loc(line), cfg)
+    rep.ob(rule, 'get_hash', not bad,
+           f'{len(bs)} bodies, {n_calls} calls, {n_sw} branches: only structure-preserving operations between the public input and the hashes',
+           fn.loc(), cfg)
+    if n_calls < 15:
+        rep.fail_closed(rule, f'only {n_calls} calls seen in get_hash (at least 15 confirmed by reading)')
